@@ -523,7 +523,7 @@ impl Slots {
     fn new(thorough: bool) -> Slots {
         if thorough {
             Slots {
-                arg: vec!["", "0", "1", "10", "a", "_0", "_a", "é"],
+                arg: vec!["", "0", "1", "10", "a", "_0", "_a", "é", "a\u{663}", "न\u{93e}म"],
                 ws_before_colon: vec!["", " ", "\u{a0}", "\u{3000}"],
                 fill_align: vec!["", "<", "^", ">", "*<", "0>", "é^", "}<"],
                 sign: vec!["", "+", "-"],
@@ -536,7 +536,7 @@ impl Slots {
             }
         } else {
             Slots {
-                arg: vec!["", "1", "_0", "a"],
+                arg: vec!["", "1", "_0", "a", "a\u{663}"],
                 ws_before_colon: vec!["", " ", "\u{a0}"],
                 fill_align: vec!["", ">", "*<", "é^"],
                 sign: vec!["", "+"],
